@@ -98,7 +98,7 @@ theorem om_familyLines_ok (fam : Family) (fl : List Str) (h : OMExpo.familyLines
     have hhelp : LineOf true .help ("# HELP ".toList ++ escapeMetricName fam.name ++ [' '] ++ escape fam.doc ++ ['\n']) := by
       refine ⟨_, rfl, ?_⟩
       simp only [List.append_assoc, List.cons_append, List.nil_append]
-      exact classify_help true fam.name _ (escape_noLF fam.doc)
+      exact classify_help true fam.name _ (by simp [helpText, qscan_escape])
     have htype : LineOf true .type ("# TYPE ".toList ++ escapeMetricName fam.name ++ [' '] ++ fam.typ ++ ['\n']) := by
       refine ⟨_, rfl, ?_⟩
       simp only [List.append_assoc, List.cons_append, List.nil_append]
